@@ -82,14 +82,23 @@ Proof.
 Qed.
 
 (** * the folder a member is asked to walk *)
+Lemma folder_ops_nonorm_rstrip l : folder_ops_ok l = true -> uses_norm l = false -> has_rstrip l = true.
+Proof.
+  unfold folder_ops_ok. intros H Hu. rewrite Hu in H. rewrite <- (has_rstrip_after_norm l).
+  destruct (split_sf (after_norm l)) as [a t] eqn:E. apply split_sf_spec in E as [E Hsf]. rewrite E, (has_rstrip_sf a t Hsf).
+  apply andb_true_iff in H as [_ Ht]. repeat (destruct t as [|[] t]; try discriminate); reflexivity.
+Qed.
+
 Lemma folder_key_clean b C :
+  folder_ops_ok (b_wfolder b) = true ->
   clean C = true -> slash C = C -> folder_key b C = nkey C /\ folder_key b (C ++ [SL]) = nkey C.
 Proof.
-  intros H Hs. unfold folder_key, uses_norm.
+  intros Hfo H Hs. pose proof (folder_ops_nonorm_rstrip (b_wfolder b) Hfo) as Hrs. unfold folder_key, uses_norm in *.
   assert (Hs' : slash (C ++ [SL]) = C ++ [SL]) by (unfold slash in *; rewrite map_app, Hs; reflexivity).
   assert (Hk : nkey (C ++ [SL]) = nkey C ++ [SL]) by (rewrite nkey_app; reflexivity).
   pose proof (rstrip_noslash _ (nkey_rev_noslash C H Hs)) as Hr.
-  destruct (norm_kind (b_wfolder b)); cbn [prenorm]; rewrite ?Hs, ?Hs', ?(clean_normpath C H), ?(normpath_trailing C H),
+  destruct (norm_kind (b_wfolder b)); [rewrite (Hrs eq_refl)|destruct (has_rstrip (b_wfolder b))..];
+    cbn [prenorm]; rewrite ?Hs, ?Hs', ?(clean_normpath C H), ?(normpath_trailing C H),
     ?Hk, ?rstrip_snoc, ?(nkey_not_dot C H), ?Hr; split; reflexivity.
 Qed.
 
@@ -119,20 +128,21 @@ Lemma nkey_sep a b : nkey (a ++ SL :: b) = nkey a ++ SL :: nkey b.
 Proof. rewrite nkey_app. reflexivity. Qed.
 
 Lemma member_folder_key b p folder :
+  folder_ops_ok (b_wfolder b) = true ->
   okp p -> okp folder -> folder_key b (full_name p folder) = gkey p folder.
 Proof.
-  intros [->|[Hp Hsp]] [->|[Hf Hsf]].
+  intros Hfo [->|[Hp Hsp]] [->|[Hf Hsf]].
   - rewrite chain_no_prefix. apply folder_key_empty.
   - rewrite chain_no_prefix. cbn [gkey]. rewrite <- (nkey_slash folder).
-    apply (folder_key_clean b (slash folder) Hsf (slash_idem folder)).
+    apply (folder_key_clean b (slash folder) Hfo Hsf (slash_idem folder)).
   - rewrite (chain_prefix_relative p [] Hp eq_refl). change (SL :: slash []) with [SL].
     pose proof (clean_nonempty p Hp). destruct p as [|x p']; [congruence|]. cbn [gkey].
-    rewrite <- (nkey_slash (x :: p')). apply (folder_key_clean b (slash (x :: p')) Hsp (slash_idem _)).
+    rewrite <- (nkey_slash (x :: p')). apply (folder_key_clean b (slash (x :: p')) Hfo Hsp (slash_idem _)).
   - rewrite (chain_prefix_relative p folder Hp (clean_no_lead_slash folder Hf)).
     pose proof (clean_nonempty p Hp). pose proof (clean_nonempty folder Hf).
     destruct p as [|x p']; [congruence|]. destruct folder as [|y f']; [congruence|]. cbn [gkey].
     rewrite <- (nkey_slash (x :: p')), <- (nkey_slash (y :: f')), <- nkey_sep.
-    apply (folder_key_clean b (slash (x :: p') ++ SL :: slash (y :: f'))).
+    apply (folder_key_clean b (slash (x :: p') ++ SL :: slash (y :: f')) Hfo).
     + rewrite clean_app, Hsp, Hsf. reflexivity.
     + rewrite slash_app_sep. apply slash_idem.
 Qed.
@@ -164,7 +174,7 @@ Lemma walk_member b fs p folder e :
   (In e (walk b fs (full_name p folder)) <->
    In e (entries b fs) /\ exists R, under p (nkey (fst e)) R /\ path_prefix (nkey folder) R).
 Proof.
-  intros Hw Hc Hp Hf. rewrite (walk_exact b fs _ e Hw Hc), (member_folder_key b p folder Hp Hf), (gkey_iff p folder _ Hp).
+  intros Hw Hc Hp Hf. rewrite (walk_exact b fs _ e Hw Hc), (member_folder_key b p folder (walk_ok_folder b Hw) Hp Hf), (gkey_iff p folder _ Hp).
   reflexivity.
 Qed.
 
